@@ -204,7 +204,11 @@ def run_group(g, trace=False, workroot=None):
             return res
         binary = b
     cb = ['cbmc', *CBMC_BASE, *g.cbmc]
-    if g.backend:
+    if g.backend == 'cadical':
+        cb += ['--sat-solver', 'cadical']
+    elif g.backend == 'kissat':
+        cb += ['--external-sat-solver', 'kissat']
+    elif g.backend:
         cb += ['--' + g.backend]
     if g.unwind:
         cb += ['--unwind', str(g.unwind)]
